@@ -7,7 +7,11 @@ package main
 import (
 	"bufio"
 	"fmt"
+	"go/ast"
+	"go/parser"
+	"go/token"
 	"os"
+	"path/filepath"
 	"regexp"
 	"strconv"
 	"strings"
@@ -47,43 +51,44 @@ type ModSpec struct {
 }
 
 type FuncContract struct {
-	Key        string // "Recv.Name" or "Name"; closures "Name$1"
-	RecvName   string
-	FuncName   string
-	File       string
-	Line       int
-	Properties map[string]bool
-	Requires   []*Clause
-	Ensures    []*Clause
-	Assumes    []*Clause
-	Modifies   []string
-	ModSpecs   []*ModSpec
-	HasMod     bool // a modifies clause (possibly empty via "pure") was given
-	Pure       bool
-	Safe       map[string]bool // properties for which safety obligations are generated
-	Trusted    string          // reason; body not verified
-	Loops      map[int]*LoopSpec
-	Extern     bool   // external (trusted) function; Sig gives the signature
-	Sig        string // for extern / iface: explicit signature text "(recv T) Name(params) (results)"
-	Iface      bool   // contract of an interface method
-	AllocBound string // max bytes for make() in this function (expression)
-	NoPanic    bool
-	Holds      []string // tokens that the whole function body holds
-	Spawned    bool     // function is only ever started with `go` (informational)
-	Terminates map[string]bool
-	Defaults   string
-	Aliases    []string
-	Sites      []*SiteSpec
-	FreeVars   []VarDecl // (closures) captured variables visible in the contract, by name
-	Implements []string // keys of interface-method contracts this method must refine
-	Deterministic bool // (extern functions) results are functions of the argument values only
-	Dead       bool // target does not exist (reported as unresolved)
-	Stable     bool // (interface / extern methods) the single result is a function of the receiver identity only
+	Key           string // "Recv.Name" or "Name"; closures "Name$1"
+	RecvName      string
+	FuncName      string
+	File          string
+	Line          int
+	Properties    map[string]bool
+	Requires      []*Clause
+	Ensures       []*Clause
+	Assumes       []*Clause
+	Modifies      []string
+	ModSpecs      []*ModSpec
+	HasMod        bool // a modifies clause (possibly empty via "pure") was given
+	Pure          bool
+	Safe          map[string]bool // properties for which safety obligations are generated
+	Trusted       string          // reason; body not verified
+	Loops         map[int]*LoopSpec
+	Extern        bool   // external (trusted) function; Sig gives the signature
+	Sig           string // for extern / iface: explicit signature text "(recv T) Name(params) (results)"
+	Iface         bool   // contract of an interface method
+	AllocBound    string // max bytes for make() in this function (expression)
+	NoPanic       bool
+	Holds         []string // tokens that the whole function body holds
+	Spawned       bool     // function is only ever started with `go` (informational)
+	Terminates    map[string]bool
+	Defaults      string
+	Aliases       []string
+	Sites         []*SiteSpec
+	FreeVars      []VarDecl // (closures) captured variables visible in the contract, by name
+	Implements    []string  // keys of interface-method contracts this method must refine
+	Deterministic bool      // (extern functions) results are functions of the argument values only
+	Dead          bool      // target does not exist (reported as unresolved)
+	Stable        bool      // (interface / extern methods) the single result is a function of the receiver identity only
 }
 
 // SiteSpec: an assumption or assertion attached to the n-th call (in source order) of a callee.
-//   callsite <callee>#<n> (<name type>, ...) assume <expr> "reason"
-//   callsite <callee>#<n> (<name type>, ...) assert <expr> :label
+//
+//	callsite <callee>#<n> (<name type>, ...) assume <expr> "reason"
+//	callsite <callee>#<n> (<name type>, ...) assert <expr> :label
 type SiteSpec struct {
 	Callee string
 	N      int
@@ -107,18 +112,18 @@ type PredDecl struct {
 }
 
 type ContractFile struct {
-	Path    string
-	PkgDir  string
-	Imports []string // extra import lines for generated spec file: `alias "path"`
-	Ghosts  []*GhostDecl
-	Preds   []*PredDecl
-	Funcs   []*FuncContract
-	GoDecls []string
-	NonNilDynamic []string // interface types whose dynamic values are never typed-nil pointers (trusted data invariant)
-	PkgInvs []*Clause // invariants over package-level variables: established by init, never written afterwards
-	Consts  []*Clause // closed obligations over package-level constants
-	Lemmas  []*Clause
-	Immutables []*Clause // Type.field: written only while the enclosing object is being constructed (module-wide scan)
+	Path          string
+	PkgDir        string
+	Imports       []string // extra import lines for generated spec file: `alias "path"`
+	Ghosts        []*GhostDecl
+	Preds         []*PredDecl
+	Funcs         []*FuncContract
+	GoDecls       []string
+	NonNilDynamic []string  // interface types whose dynamic values are never typed-nil pointers (trusted data invariant)
+	PkgInvs       []*Clause // invariants over package-level variables: established by init, never written afterwards
+	Consts        []*Clause // closed obligations over package-level constants
+	Lemmas        []*Clause
+	Immutables    []*Clause // Type.field: written only while the enclosing object is being constructed (module-wide scan)
 }
 
 var clauseKeywords = map[string]bool{
@@ -137,13 +142,16 @@ func splitLabel(s string) (string, string) {
 }
 
 func ParseContractFile(path string) (*ContractFile, error) {
-	f, err := os.Open(path)
+	raw, err := os.ReadFile(path)
 	if err != nil {
 		return nil, err
 	}
-	defer f.Close()
+	// Specification helpers (pred / go func) live in the package's scope in the generated overlay file.
+	// A helper whose name the package itself declares (today or after an edit) is renamed on the fly, so
+	// that adding a function called like a helper is not reported as a contract error.
+	text := renameCollidingHelpers(string(raw), filepath.Dir(path))
 	cf := &ContractFile{Path: path}
-	sc := bufio.NewScanner(f)
+	sc := bufio.NewScanner(strings.NewReader(text))
 	sc.Buffer(make([]byte, 1<<20), 1<<20)
 	var cur *FuncContract
 	curProp := ""
@@ -561,7 +569,7 @@ func splitTop(s string, sep byte) []string {
 type quantUse struct{ Kind, Type string }
 
 type exprCtx struct {
-	params map[string]bool  // names that get an old_ twin
+	params map[string]bool     // names that get an old_ twin
 	quants map[string]quantUse // stub name -> use
 }
 
@@ -793,4 +801,71 @@ func (c *exprCtx) renameOld(s string) string {
 		j++
 	}
 	return out.String()
+}
+
+var helperDeclRe = regexp.MustCompile(`(?m)^\s*//\s?@\s*(?:pred|go\s+func)\s+([A-Za-z_][A-Za-z0-9_]*)\s*\(`)
+
+func renameCollidingHelpers(text, dir string) string {
+	ms := helperDeclRe.FindAllStringSubmatch(text, -1)
+	if len(ms) == 0 {
+		return text
+	}
+	declared := packageIdents(dir)
+	for _, m := range ms {
+		name := m[1]
+		if !declared[name] {
+			continue
+		}
+		re := regexp.MustCompile(`\b` + regexp.QuoteMeta(name) + `\b`)
+		lines := strings.Split(text, "\n")
+		for i, l := range lines {
+			t := strings.TrimSpace(l)
+			if strings.HasPrefix(t, "//@") || strings.HasPrefix(t, "// @") {
+				lines[i] = re.ReplaceAllString(l, name+"__spec")
+			}
+		}
+		text = strings.Join(lines, "\n")
+	}
+	return text
+}
+
+// packageIdents: the package-level identifiers declared by the non-test Go files of a directory (parsed
+// leniently; the contract file itself declares nothing).
+func packageIdents(dir string) map[string]bool {
+	out := map[string]bool{}
+	ents, err := os.ReadDir(dir)
+	if err != nil {
+		return out
+	}
+	fset := token.NewFileSet()
+	for _, e := range ents {
+		n := e.Name()
+		if e.IsDir() || !strings.HasSuffix(n, ".go") || strings.HasSuffix(n, "_test.go") || n == contractFileName {
+			continue
+		}
+		f, err := parser.ParseFile(fset, filepath.Join(dir, n), nil, parser.SkipObjectResolution)
+		if err != nil || f == nil {
+			continue
+		}
+		for _, d := range f.Decls {
+			switch x := d.(type) {
+			case *ast.FuncDecl:
+				if x.Recv == nil {
+					out[x.Name.Name] = true
+				}
+			case *ast.GenDecl:
+				for _, sp := range x.Specs {
+					switch y := sp.(type) {
+					case *ast.TypeSpec:
+						out[y.Name.Name] = true
+					case *ast.ValueSpec:
+						for _, id := range y.Names {
+							out[id.Name] = true
+						}
+					}
+				}
+			}
+		}
+	}
+	return out
 }
